@@ -77,7 +77,7 @@ def run(tier, seed):
     rng = C.rng_for(seed, CID)
     n = 700 if tier == 'quick' else 12000
 
-    P = R.proof_stage()
+    P = IC.proof_stage_with_translation(R)
     proof_broken = not P['ok']
     if proof_broken:
         R.notes.append('proof stage: ' + P['log'][-1500:])
@@ -271,6 +271,7 @@ def run(tier, seed):
         R.notes.append(f'{len(mismatches)} mismatches; first: {mismatches[0]}')
     R.coverage['rule'] = RULE
     return R.finish(level='proof', trusted_base=C.TRUSTED_COMMON + [
+        IC.TRANSLATOR_TRUST,
         'harness/impl/interp_runner.py (request codec, full-expansion helper, symbol names str(n) <-> n)',
         'harness/rust/interp_harness.rs + interp_main.rs (dump only: runs execute_instructions on the three files, prints '
         'stack/memory/claims with a private pattern codec)',
